@@ -93,10 +93,10 @@ package tls
 //@ func (*sessionController).assertControllerState
 //@   property C20 C19
 //@   requires s != nil
-//@   assume-pure anyTrue[github.com/refraction-networking/utls.sessionControllerState]
+//@   assume-pure anyTrue
 //@   panics when s.state != desired && forall i in 0..len(moreDesiredStates): moreDesiredStates[i] != s.state
 //@   pure
-//@   at after call anyTrue[github.com/refraction-networking/utls.sessionControllerState]#0: assume anytrue: res <==> exists i in 0..len(moreDesiredStates): moreDesiredStates[i] == s.state
+//@   at after call anyTrue#0: assume anytrue: res <==> exists i in 0..len(moreDesiredStates): moreDesiredStates[i] == s.state
 
 //@ func (*sessionController).finalCheck
 //@   property C20 C19
@@ -149,13 +149,8 @@ package tls
 // parameter is opaque for the generator, so the two instances are ASSUMED (trusted) to behave as their
 // source reads for an initializer that runs InitializeByUtls on the extension (the two closures below,
 // which are verified on their own):  assert !IsInitialized(); initializer(ext); assert IsInitialized().
-//@ trusted func tls.initializationGuard[github.com/refraction-networking/utls.ISessionTicketExtension func(e github.com/refraction-networking/utls.ISessionTicketExtension)]
-//@   requires extension != nil
-//@   panics when ghost(initialized, extension) != 0
-//@   modifies ghost(initialized, extension)
-//@   ensures ghost(initialized, extension) != 0
-
-//@ trusted func tls.initializationGuard[github.com/refraction-networking/utls.PreSharedKeyExtension func(e github.com/refraction-networking/utls.PreSharedKeyExtension)]
+// (one contract serves both instantiations: E = ISessionTicketExtension and E = PreSharedKeyExtension)
+//@ trusted func initializationGuard
 //@   requires extension != nil
 //@   panics when ghost(initialized, extension) != 0
 //@   modifies ghost(initialized, extension)
@@ -198,7 +193,9 @@ package tls
 
 // mapSlice is generic and higher order: ASSUMED to map element-wise with the closure initPskExt$1$1
 // (label and obfuscated ticket age are copied); its body also appends to a slice of structs (unsupported).
-//@ trusted func tls.mapSlice[github.com/refraction-networking/utls.pskIdentity github.com/refraction-networking/utls.PskIdentity]
+// (the contract key serves every instantiation; the element clause is written for the only call in verified
+// code, mapSlice[pskIdentity, PskIdentity] in initPskExt$1; the other use is a package-level initialiser)
+//@ trusted func mapSlice
 //@   modifies nothing
 //@   ensures len(ret) == len(slice) && fresh(ret)
 //@   ensures forall j in 0..len(slice): ret[j].Label == slice[j].label && ret[j].ObfuscatedTicketAge == slice[j].obfuscatedTicketAge
@@ -240,3 +237,293 @@ package tls
 //@   modifies *h, h.Raw[0..len(h.Raw)], ghost(pskBinders, s.pskExtension)
 //@   ensures inv: SC(s)
 //@   at before call PatchBuiltHello#0: assert owner: arg0 == s.pskExtension && arg1 == h
+
+// sliceEq is generic; the generic body is verified once and the contract serves every instantiation.
+//@ func sliceEq
+//@   property C20 C19
+//@   pure
+//@   ensures ret <==> len(sliceA) == len(sliceB) && forall j in 0..len(sliceA): sliceA[j] == sliceB[j]
+//@   loop 0 invariant 0 <= i && i <= len(sliceA) && len(sliceA) == len(sliceB)
+//@   loop 0 invariant forall j in 0..i: sliceA[j] == sliceB[j]
+
+// the predicate handed to allTrue in state PskExtAllSet: identity i of the hello equals identity i of the extension.
+// allTrue runs over the hello's identities, so precondition `inrange` is NOT established by the caller when the
+// hello holds more identities than the extension (index out of range instead of the documented panic).
+//@ func (*sessionController).setPskToUConn$1
+//@   property C20 C19
+//@   requires pskCommon != nil && psk != nil
+//@   requires inrange: 0 <= i && i < len((*pskCommon).Identities)
+//@   pure
+//@   ensures ret <==> (*pskCommon).Identities[i].ObfuscatedTicketAge == psk.ObfuscatedTicketAge && len((*pskCommon).Identities[i].Label) == len(psk.Label) && forall j in 0..len(psk.Label): (*pskCommon).Identities[i].Label[j] == psk.Label[j]
+
+// Writes the psk state of the owned extension to the handshake state and the hello ("as given": the values are
+// the ones GetPreSharedKeyCommon returns). In state PskExtAllSet (every BuildHandshakeState after the first) only
+// the binder key is refreshed and the documented panic fires when session / early secret / identities of the
+// handshake state no longer equal the extension's. allTrue (generic, higher order) is opaque: its result is
+// named callres(allTrue..., 0).
+//@ spec sameBytes(a, b) = len(a) == len(b) && forall j in 0..len(a): a[j] == b[j]
+//@ spec sameIds(a, b) = forall i in 0..len(b): a[i].ObfuscatedTicketAge == b[i].ObfuscatedTicketAge && len(a[i].Label) == len(b[i].Label) && forall j in 0..len(b[i].Label): a[i].Label[j] == b[i].Label[j]
+//@ func (*sessionController).setPskToUConn
+//@   property C20 C19
+//@   let u = s.uconnRef
+//@   requires SC(s)
+//@   requires hello: u.HandshakeState.Hello != nil
+//@   assume-pure allTrue
+//@   panics when s.pskExtension == nil || (s.state != PskExtInitialized && s.state != PskExtAllSet)
+//@   panics when s.state == PskExtAllSet && !(u.HandshakeState.Session == callres(GetPreSharedKeyCommon, 0).Session && sameBytes(u.HandshakeState.State13.EarlySecret, callres(GetPreSharedKeyCommon, 0).EarlySecret) && sameIds(callres(GetPreSharedKeyCommon, 0).Identities, u.HandshakeState.Hello.PskIdentities))
+//@   at after call allTrue#0: assume alltrue: res <==> sameIds(callres(GetPreSharedKeyCommon, 0).Identities, u.HandshakeState.Hello.PskIdentities)
+//@   modifies s.state, u.HandshakeState.State13.EarlySecret, u.HandshakeState.State13.BinderKey, u.HandshakeState.Session, u.HandshakeState.Hello.PskIdentities, u.HandshakeState.Hello.PskBinders
+//@   ensures inv: SC(s)
+//@   ensures allset: s.state == PskExtAllSet
+//@   ensures binderkey: u.HandshakeState.State13.BinderKey == callres(GetPreSharedKeyCommon, 0).BinderKey
+//@   ensures asgiven: old(s.state) == PskExtInitialized ==> u.HandshakeState.State13.EarlySecret == callres(GetPreSharedKeyCommon, 0).EarlySecret && u.HandshakeState.Session == callres(GetPreSharedKeyCommon, 0).Session && u.HandshakeState.Hello.PskIdentities == callres(GetPreSharedKeyCommon, 0).Identities && u.HandshakeState.Hello.PskBinders == callres(GetPreSharedKeyCommon, 0).Binders
+//@   ensures kept: old(s.state) == PskExtAllSet ==> u.HandshakeState.State13.EarlySecret == old(u.HandshakeState.State13.EarlySecret) && u.HandshakeState.Session == old(u.HandshakeState.Session) && u.HandshakeState.Hello.PskIdentities == old(u.HandshakeState.Hello.PskIdentities) && u.HandshakeState.Hello.PskBinders == old(u.HandshakeState.Hello.PskBinders)
+//@   at before call GetPreSharedKeyCommon#0: assert owner: arg0 == s.pskExtension
+//@   at before call sliceEq#0: assert secrets: arg0 == u.HandshakeState.State13.EarlySecret && arg1 == callres(GetPreSharedKeyCommon, 0).EarlySecret
+
+// ---------------------------------------------------------------------------------------------
+// SetSessionTicketExtension / SetPskExtension: the user's extension becomes the owned one.
+
+// overrideExtension calls its function argument `override` (opaque for the generator), so its contract is
+// ASSUMED (trusted): the three assertions, then override(), then the state follows IsInitialized(). Which
+// field override() stores is assumed at the two call sites (anchors closure_ran) from the verified closures.
+//@ trusted func (*sessionController).overrideExtension
+//@   requires s != nil
+//@   panics when extension == nil || s.locked || s.state != NoSession
+//@   modifies s.state, s.sessionTicketExt, s.pskExtension
+//@   ensures ret == nil
+//@   ensures ghost(initialized, extension) != 0 ==> s.state == initializedState
+//@   ensures ghost(initialized, extension) == 0 ==> s.state == old(s.state)
+
+//@ func (*sessionController).overrideSessionTicketExt$1
+//@   property C20 C19
+//@   requires s != nil && *s != nil && sessionTicketExt != nil
+//@   modifies (*s).sessionTicketExt
+//@   ensures (*s).sessionTicketExt == *sessionTicketExt
+
+//@ func (*sessionController).overridePskExt$1
+//@   property C20 C19
+//@   requires s != nil && *s != nil && pskExt != nil
+//@   modifies (*s).pskExtension
+//@   ensures (*s).pskExtension == *pskExt
+
+//@ func (*sessionController).overrideSessionTicketExt
+//@   property C20 C19
+//@   requires SC(s)
+//@   panics when sessionTicketExt == nil || s.locked || s.state != NoSession
+//@   modifies s.state, s.sessionTicketExt
+//@   ensures inv: SC(s)
+//@   ensures ok: ret == nil
+//@   ensures asgiven: s.sessionTicketExt == sessionTicketExt
+//@   ensures ready: ghost(initialized, sessionTicketExt) != 0 ==> s.state == SessionTicketExtInitialized
+//@   ensures notready: ghost(initialized, sessionTicketExt) == 0 ==> s.state == NoSession
+//@   at before call overrideExtension#0: assert args: arg0 == s && arg1 == sessionTicketExt && arg3 == SessionTicketExtInitialized
+//@   at after call overrideExtension#0: assume closure_ran: s.sessionTicketExt == sessionTicketExt && s.pskExtension == old(s.pskExtension)
+
+//@ func (*sessionController).overridePskExt
+//@   property C20 C19
+//@   requires SC(s)
+//@   panics when pskExt == nil || s.locked || s.state != NoSession
+//@   modifies s.state, s.pskExtension
+//@   ensures inv: SC(s)
+//@   ensures ok: ret == nil
+//@   ensures asgiven: s.pskExtension == pskExt
+//@   ensures ready: ghost(initialized, pskExt) != 0 ==> s.state == PskExtInitialized
+//@   ensures notready: ghost(initialized, pskExt) == 0 ==> s.state == NoSession
+//@   at before call overrideExtension#0: assert args: arg0 == s && arg1 == pskExt && arg3 == PskExtInitialized
+//@   at after call overrideExtension#0: assume closure_ran: s.pskExtension == pskExt && s.sessionTicketExt == old(s.sessionTicketExt)
+
+// ---------------------------------------------------------------------------------------------
+// syncSessionExts (end of ApplyPreset): reconcile the owned extensions with the extension list of the spec.
+// The type switch takes an element as a session ticket extension when it implements ISessionTicketExtension,
+// else as a psk extension when it implements PreSharedKeyExtension.
+//@ spec isTkt(x) = implements(x, ISessionTicketExtension)
+//@ spec isPsk(x) = !implements(x, ISessionTicketExtension) && implements(x, PreSharedKeyExtension)
+
+//@ func (*sessionController).syncSessionExts
+//@   property C20 C19
+//@   let u = s.uconnRef
+//@   let E = s.uconnRef.Extensions
+//@   let n = len(s.uconnRef.Extensions)
+//@   let T0 = s.sessionTicketExt
+//@   let P0 = s.pskExtension
+//@   requires SC(s)
+//@   requires conn: u.Conn != nil && u.config != nil
+//@   requires hello: u.HandshakeState.Hello != nil
+//@   panics when u.clientHelloBuildStatus != NotBuilt || s.locked || s.state == SessionTicketExtAllSet || s.state == PskExtAllSet
+//@   panics when exists i in 0..n: exists j in 0..n: i != j && isTkt(E[i]) && isTkt(E[j])
+//@   panics when exists i in 0..n-1: isPsk(E[i])
+//@   modifies s.sessionTicketExt, s.pskExtension, E[0..n], ghost(omitEmptyPsk, P0), ghost(omitEmptyPsk, E[n-1]), u.HandshakeState.Session, u.HandshakeState.Hello.SessionTicket, u.HandshakeState.Hello.PskIdentities, u.HandshakeState.State13.BinderKey, u.HandshakeState.State13.EarlySecret
+//@   ensures inv: SC(s)
+//@   ensures list: u.Extensions == E
+//@   ensures oneticket: forall i in 0..n: forall j in 0..n: i != j ==> !(isTkt(old(E[i])) && isTkt(old(E[j])))
+//@   ensures psklast: forall i in 0..n-1: !isPsk(old(E[i]))
+//@   ensures ticket_in_list: forall i in 0..n: isTkt(old(E[i])) ==> E[i] == s.sessionTicketExt && s.sessionTicketExt != nil
+//@   ensures psk_in_list: forall i in 0..n: isPsk(old(E[i])) ==> E[i] == s.pskExtension && s.pskExtension != nil
+//@   ensures others: forall i in 0..n: !isTkt(old(E[i])) && !isPsk(old(E[i])) ==> E[i] == old(E[i])
+//@   ensures ticket_asgiven: T0 != nil && (exists i in 0..n: isTkt(old(E[i]))) ==> s.sessionTicketExt == T0
+//@   ensures psk_asgiven: P0 != nil && (exists i in 0..n: isPsk(old(E[i]))) ==> s.pskExtension == P0
+//@   ensures ticket_adopted: T0 == nil ==> forall i in 0..n: isTkt(old(E[i])) ==> E[i] == old(E[i])
+//@   ensures psk_adopted: P0 == nil ==> forall i in 0..n: isPsk(old(E[i])) ==> E[i] == old(E[i])
+//@   ensures ticket_missing: s.state == SessionTicketExtInitialized && (forall i in 0..n: !isTkt(old(E[i]))) ==> ret != nil && s.sessionTicketExt == T0
+//@   ensures psk_missing: s.state == PskExtInitialized && (forall i in 0..n: !isPsk(old(E[i]))) ==> ret != nil
+//@   ensures ticket_dropped: s.state != SessionTicketExtInitialized && (forall i in 0..n: !isTkt(old(E[i]))) ==> s.sessionTicketExt == nil && u.HandshakeState.Session == nil && isnil(u.HandshakeState.Hello.SessionTicket)
+//@   ensures psk_dropped: ret == nil && (forall i in 0..n: !isPsk(old(E[i]))) ==> s.pskExtension == nil && u.HandshakeState.Session == nil && isnil(u.HandshakeState.Hello.PskIdentities) && isnil(u.HandshakeState.State13.BinderKey) && isnil(u.HandshakeState.State13.EarlySecret)
+//@   ensures success: ret == nil <==> !(s.state == SessionTicketExtInitialized && (forall i in 0..n: !isTkt(old(E[i])))) && !(s.state == PskExtInitialized && (forall i in 0..n: !isPsk(old(E[i]))))
+//@   loop 0 invariant -1 <= $rangeindex && $rangeindex < n
+//@   loop 0 invariant u.Extensions == E
+//@   loop 0 invariant numSessionExt == 0 || numSessionExt == 1
+//@   loop 0 invariant numSessionExt == 0 <==> (forall j in 0..$k: !isTkt(old(E[j])))
+//@   loop 0 invariant forall i in 0..$k: forall j in 0..$k: i != j ==> !(isTkt(old(E[i])) && isTkt(old(E[j])))
+//@   loop 0 invariant hasPskExt <==> (exists j in 0..$k: isPsk(old(E[j])))
+//@   loop 0 invariant forall j in 0..$k: isPsk(old(E[j])) ==> j == n-1
+//@   loop 0 invariant forall j in 0..$k: isTkt(old(E[j])) ==> E[j] == s.sessionTicketExt && s.sessionTicketExt != nil
+//@   loop 0 invariant forall j in 0..$k: isPsk(old(E[j])) ==> E[j] == s.pskExtension && s.pskExtension != nil
+//@   loop 0 invariant forall j in 0..$k: !isTkt(old(E[j])) && !isPsk(old(E[j])) ==> E[j] == old(E[j])
+//@   loop 0 invariant forall j in $k..n: E[j] == old(E[j])
+//@   loop 0 invariant T0 != nil ==> s.sessionTicketExt == T0
+//@   loop 0 invariant P0 != nil ==> s.pskExtension == P0
+//@   loop 0 invariant T0 == nil && numSessionExt == 0 ==> s.sessionTicketExt == nil
+//@   loop 0 invariant P0 == nil && !hasPskExt ==> s.pskExtension == nil
+//@   loop 0 invariant T0 == nil ==> forall j in 0..$k: isTkt(old(E[j])) ==> E[j] == old(E[j])
+//@   loop 0 invariant P0 == nil ==> forall j in 0..$k: isPsk(old(E[j])) ==> E[j] == old(E[j])
+
+// =============================================================================================
+// C16: GREASE ECH (u_ech.go, u_hpke.go)
+
+// HPKE AEAD ids 1, 2, 3 (AES-128-GCM, AES-256-GCM, ChaCha20-Poly1305), all with a 16-byte tag.
+//@ spec okAead(a) = a == 1 || a == 2 || a == 3
+//@ spec okKdf(k) = k == 1 || k == 2 || k == 3
+//@ spec allOkAead(C) = forall i in 0..len(C): okAead(C[i].AeadId)
+// the chosen suite is the default (HKDF-SHA256, AES-128-GCM) for an empty candidate list, else one of the candidates
+//@ spec suiteFrom(g, C) = (len(C) == 0 ==> g.cipherSuite.KdfId == 1 && g.cipherSuite.AeadId == 1) && (len(C) > 0 ==> exists i in 0..len(C): g.cipherSuite.KdfId == C[i].KdfId && g.cipherSuite.AeadId == C[i].AeadId)
+//@ spec payloadFrom(g) = exists i in 0..len(g.CandidatePayloadLens): len(g.payload) == g.CandidatePayloadLens[i] + 16
+
+//@ func cipherLen
+//@   property C16
+//@   panics when !okAead(a)
+//@   pure
+//@   ensures ret == mLen + 16
+//@   ensures ids: hpke.AEAD_AES_128_GCM == 1 && hpke.AEAD_AES_256_GCM == 2 && hpke.AEAD_ChaCha20Poly1305 == 3 && dicttls.AEAD_AES_128_GCM == 1 && dicttls.AEAD_AES_256_GCM == 2 && dicttls.AEAD_CHACHA20_POLY1305 == 3
+
+//@ func BoringGREASEECH
+//@   property C16
+//@   modifies nothing
+//@   ensures fresh: ret != nil && fresh(ret)
+//@   ensures suites: len(ret.CandidateCipherSuites) == 2 && ret.CandidateCipherSuites[0].KdfId == 1 && ret.CandidateCipherSuites[0].AeadId == 1 && ret.CandidateCipherSuites[1].KdfId == 1 && ret.CandidateCipherSuites[1].AeadId == 3
+//@   ensures lens: len(ret.CandidatePayloadLens) == 4 && ret.CandidatePayloadLens[0] == 128 && ret.CandidatePayloadLens[1] == 160 && ret.CandidatePayloadLens[2] == 192 && ret.CandidatePayloadLens[3] == 224
+//@   ensures empty: len(ret.CandidateConfigIds) == 0 && len(ret.EncapsulatedKey) == 0 && len(ret.payload) == 0
+//@   ensures valid: allOkAead(ret.CandidateCipherSuites)
+
+//@ func (*GREASEEncryptedClientHelloExtension).randomizePayload
+//@   property C16
+//@   requires g != nil
+//@   panics when len(g.payload) == 0 && !okAead(g.cipherSuite.AeadId)
+//@   modifies g.payload
+//@   ensures once: len(old(g.payload)) != 0 ==> ret != nil && g.payload == old(g.payload)
+//@   ensures size: len(old(g.payload)) == 0 ==> ret == nil && len(g.payload) == encodedHelloInnerLen + 16 && fresh(g.payload)
+//@   at before call Read#0: assert random: arg0 == g.payload
+//@   note cover:return1 (the error return after rand.Read) is unsat on purpose: crypto/rand.Read never fails (trusted contract, Go 1.24)
+
+// The body of init() (runs inside initOnce.Do). g and initErr are the closure cells of the captured variables.
+//@ func (*GREASEEncryptedClientHelloExtension).init$1
+//@   property C16
+//@   let G = *g
+//@   let C = (*g).CandidateCipherSuites
+//@   let I = (*g).CandidateConfigIds
+//@   note cover:return6 (error return after rand.Read of the config id) is unsat on purpose: crypto/rand.Read never fails (trusted contract, Go 1.24)
+//@   requires cells: g != nil && *g != nil && initErr != nil && *initErr == nil
+//@   requires validaead: allOkAead(C)
+//@   assume-pure Error
+//@   modifies *initErr, G.configId, G.cipherSuite, G.EncapsulatedKey, G.CandidatePayloadLens, G.payload
+//@   ensures suite: *initErr == nil ==> suiteFrom(G, C)
+//@   ensures configid: *initErr == nil && len(I) > 0 ==> exists i in 0..len(I): G.configId == I[i]
+//@   ensures key32: *initErr == nil && len(old(G.EncapsulatedKey)) == 0 ==> len(G.EncapsulatedKey) == 32 && fresh(G.EncapsulatedKey)
+//@   ensures keykept: len(old(G.EncapsulatedKey)) != 0 ==> G.EncapsulatedKey == old(G.EncapsulatedKey)
+//@   ensures lens_default: *initErr == nil && len(old(G.payload)) == 0 && len(old(G.CandidatePayloadLens)) == 0 ==> len(G.CandidatePayloadLens) == 1 && G.CandidatePayloadLens[0] == 128
+//@   ensures lens_kept: len(old(G.CandidatePayloadLens)) != 0 ==> G.CandidatePayloadLens == old(G.CandidatePayloadLens)
+//@   ensures payload: *initErr == nil && len(old(G.payload)) == 0 ==> payloadFrom(G) && fresh(G.payload)
+//@   ensures payloadkept: len(old(G.payload)) != 0 ==> G.payload == old(G.payload)
+//@   ensures origin: (G.EncapsulatedKey == old(G.EncapsulatedKey) || fresh(G.EncapsulatedKey) || isnil(G.EncapsulatedKey)) && (G.payload == old(G.payload) || fresh(G.payload))
+
+// init() = initOnce.Do(closure above). (*sync.Once).Do calls its function argument, which is opaque for the
+// generator, so init's contract is ASSUMED (trusted) from the verified contract of init$1 and the semantics of
+// sync.Once: the closure runs on the first call only (ghost(oncedone, g) == 0), later calls change nothing and
+// return nil (initErr is a fresh local of every call).
+//@ trusted func (*GREASEEncryptedClientHelloExtension).init
+//@   let C = g.CandidateCipherSuites
+//@   let I = g.CandidateConfigIds
+//@   let first = ghost(oncedone, g) == 0
+//@   requires g != nil
+//@   requires validaead: ghost(oncedone, g) == 0 ==> allOkAead(g.CandidateCipherSuites)
+//@   modifies ghost(oncedone, g), ghost(initok, g), g.configId, g.cipherSuite, g.EncapsulatedKey, g.CandidatePayloadLens, g.payload
+//@   ensures done: ghost(oncedone, g) == 1
+//@   ensures okflag: (first ==> (ghost(initok, g) == 1 <==> ret == nil)) && (!first ==> ghost(initok, g) == old(ghost(initok, g)))
+//@   ensures again: !first ==> ret == nil && g.configId == old(g.configId) && g.cipherSuite.KdfId == old(g.cipherSuite.KdfId) && g.cipherSuite.AeadId == old(g.cipherSuite.AeadId) && g.EncapsulatedKey == old(g.EncapsulatedKey) && g.CandidatePayloadLens == old(g.CandidatePayloadLens) && g.payload == old(g.payload)
+//@   ensures suite: first && ret == nil ==> suiteFrom(g, C)
+//@   ensures configid: first && ret == nil && len(I) > 0 ==> exists i in 0..len(I): g.configId == I[i]
+//@   ensures key32: first && ret == nil && len(old(g.EncapsulatedKey)) == 0 ==> len(g.EncapsulatedKey) == 32 && fresh(g.EncapsulatedKey)
+//@   ensures keykept: len(old(g.EncapsulatedKey)) != 0 ==> g.EncapsulatedKey == old(g.EncapsulatedKey)
+//@   ensures lens_default: first && ret == nil && len(old(g.payload)) == 0 && len(old(g.CandidatePayloadLens)) == 0 ==> len(g.CandidatePayloadLens) == 1 && g.CandidatePayloadLens[0] == 128
+//@   ensures lens_kept: len(old(g.CandidatePayloadLens)) != 0 ==> g.CandidatePayloadLens == old(g.CandidatePayloadLens)
+//@   ensures payload: first && ret == nil && len(old(g.payload)) == 0 ==> payloadFrom(g) && fresh(g.payload)
+//@   ensures payloadkept: len(old(g.payload)) != 0 ==> g.payload == old(g.payload)
+//@   ensures origin: (g.EncapsulatedKey == old(g.EncapsulatedKey) || fresh(g.EncapsulatedKey) || isnil(g.EncapsulatedKey)) && (g.payload == old(g.payload) || fresh(g.payload))
+
+//@ func (*GREASEEncryptedClientHelloExtension).Len
+//@   property C16
+//@   requires g != nil
+//@   requires validaead: ghost(oncedone, g) == 0 ==> allOkAead(g.CandidateCipherSuites)
+//@   modifies ghost(oncedone, g), ghost(initok, g), g.configId, g.cipherSuite, g.EncapsulatedKey, g.CandidatePayloadLens, g.payload
+//@   ensures value: ret == 14 + len(g.EncapsulatedKey) + len(g.payload)
+//@   ensures done: ghost(oncedone, g) == 1
+//@   ensures stable: old(ghost(oncedone, g)) != 0 ==> g.configId == old(g.configId) && g.cipherSuite.KdfId == old(g.cipherSuite.KdfId) && g.cipherSuite.AeadId == old(g.cipherSuite.AeadId) && g.EncapsulatedKey == old(g.EncapsulatedKey) && g.CandidatePayloadLens == old(g.CandidatePayloadLens) && g.payload == old(g.payload) && ghost(initok, g) == old(ghost(initok, g))
+//@   ensures initialised: old(ghost(oncedone, g)) == 0 && ghost(initok, g) == 1 ==> suiteFrom(g, old(g.CandidateCipherSuites)) && (len(old(g.EncapsulatedKey)) == 0 ==> len(g.EncapsulatedKey) == 32 && fresh(g.EncapsulatedKey)) && (len(old(g.payload)) == 0 ==> payloadFrom(g) && fresh(g.payload))
+//@   ensures keykept: len(old(g.EncapsulatedKey)) != 0 ==> g.EncapsulatedKey == old(g.EncapsulatedKey)
+//@   ensures payloadkept: len(old(g.payload)) != 0 ==> g.payload == old(g.payload)
+//@   ensures origin: (g.EncapsulatedKey == old(g.EncapsulatedKey) || fresh(g.EncapsulatedKey) || isnil(g.EncapsulatedKey)) && (g.payload == old(g.payload) || fresh(g.payload))
+//@   note Len() drops the error of init(): ghost(initok, g) == 1 records that the one and only run of the initialiser succeeded
+
+// Wire layout (draft-ietf-tls-esni): fe0d, ext length, 00 (outer), kdf, aead, config id, key<2>, payload<2>.
+// echLen(g): 2+2+1+4+1+2+len(key)+2+len(payload)
+//@ spec echLen(g) = 14 + len(g.EncapsulatedKey) + len(g.payload)
+
+//@ func (*GREASEEncryptedClientHelloExtension).Read
+//@   property C16
+//@   requires g != nil
+//@   requires validaead: ghost(oncedone, g) == 0 ==> allOkAead(g.CandidateCipherSuites)
+//@   requires noalias: arr(b) != arr(g.EncapsulatedKey) && arr(b) != arr(g.payload)
+//@   modifies ghost(oncedone, g), ghost(initok, g), g.configId, g.cipherSuite, g.EncapsulatedKey, g.CandidatePayloadLens, g.payload, b[0..len(b)]
+//@   ensures short: len(b) < echLen(g) ==> ret0 == 0 && ret1 == io.ErrShortBuffer && unchanged(b)
+//@   ensures ok: len(b) >= echLen(g) ==> ret0 == echLen(g) && ret1 == io.EOF
+//@   ensures hdr: len(b) >= echLen(g) ==> b[0] == 254 && b[1] == 13 && b[2] == ((echLen(g) - 4) / 256) % 256 && b[3] == (echLen(g) - 4) % 256 && b[4] == 0
+//@   ensures suite: len(b) >= echLen(g) ==> b[5] == g.cipherSuite.KdfId / 256 && b[6] == g.cipherSuite.KdfId % 256 && b[7] == g.cipherSuite.AeadId / 256 && b[8] == g.cipherSuite.AeadId % 256 && b[9] == g.configId
+//@   ensures key: len(b) >= echLen(g) ==> b[10] == (len(g.EncapsulatedKey) / 256) % 256 && b[11] == len(g.EncapsulatedKey) % 256 && forall j in 0..len(g.EncapsulatedKey): b[12+j] == g.EncapsulatedKey[j]
+//@   ensures payload: len(b) >= echLen(g) ==> b[12+len(g.EncapsulatedKey)] == (len(g.payload) / 256) % 256 && b[13+len(g.EncapsulatedKey)] == len(g.payload) % 256 && forall j in 0..len(g.payload): b[14+len(g.EncapsulatedKey)+j] == g.payload[j]
+//@   ensures rest: forall j in echLen(g)..len(b): b[j] == old(b[j])
+//@   ensures wellformed: old(ghost(oncedone, g)) == 0 && ghost(initok, g) == 1 ==> suiteFrom(g, old(g.CandidateCipherSuites)) && (len(old(g.EncapsulatedKey)) == 0 ==> len(g.EncapsulatedKey) == 32) && (len(old(g.payload)) == 0 ==> payloadFrom(g))
+//@   ensures hrr: old(ghost(oncedone, g)) != 0 ==> g.configId == old(g.configId) && g.cipherSuite.KdfId == old(g.cipherSuite.KdfId) && g.cipherSuite.AeadId == old(g.cipherSuite.AeadId) && g.EncapsulatedKey == old(g.EncapsulatedKey) && g.payload == old(g.payload)
+//@   ensures hrrbytes: old(ghost(oncedone, g)) != 0 ==> (forall j in 0..len(g.EncapsulatedKey): g.EncapsulatedKey[j] == old(g.EncapsulatedKey[j])) && (forall j in 0..len(g.payload): g.payload[j] == old(g.payload[j]))
+
+// Write(b): decoder of a captured GREASE ECH extension body (type, kdf, aead, config id, key<2>, payload<2>).
+//@ func (*GREASEEncryptedClientHelloExtension).Write
+//@   property C16
+//@   let kdf = b[1]*256 + b[2]
+//@   let aead = b[3]*256 + b[4]
+//@   let kl = b[6]*256 + b[7]
+//@   let pl = b[8+kl]*256 + b[9+kl]
+//@   let wf = len(b) >= 10 + kl && len(b) >= 10 + kl + pl && b[0] == 0 && okKdf(kdf) && okAead(aead) && pl >= 16
+//@   requires g != nil
+//@   assume-pure Error
+//@   modifies g.cipherSuite, g.CandidateCipherSuites, g.configId, g.EncapsulatedKey, g.CandidatePayloadLens
+//@   ensures n: ret0 == len(b)
+//@   ensures accept: wf ==> ret1 == nil
+//@   ensures reject: !wf ==> ret1 != nil
+//@   ensures suite: ret1 == nil ==> g.cipherSuite.KdfId == kdf && g.cipherSuite.AeadId == aead && len(g.CandidateCipherSuites) == 1 && g.CandidateCipherSuites[0].KdfId == kdf && g.CandidateCipherSuites[0].AeadId == aead
+//@   ensures cfg: ret1 == nil ==> g.configId == b[5]
+//@   ensures key: ret1 == nil ==> len(g.EncapsulatedKey) == kl && fresh(g.EncapsulatedKey)
+//@   ensures one: ret1 == nil ==> len(g.CandidatePayloadLens) == 1
+//@   ensures DEFECT_C16_short_payload_wraps: ret1 == nil ==> g.CandidatePayloadLens[0] + 16 == pl
+//@   ensures data: unchanged(b)
+//@   note DEFECT_C16_short_payload_wraps is the property; it was violated (a payload shorter than the 16-byte AEAD tag was accepted and uint16(len-16) wrapped, e.g. 5 -> 65525) and repaired by the fix: commit 5e5db6f (such a body is now rejected: `pl >= 16` is part of wf)
+//@   note cover of the two returns after rand.Read (err != nil, n != len) is unsat on purpose: crypto/rand.Read never fails (trusted contract)
